@@ -78,11 +78,55 @@ def file_output_edge_cases(ctx):
     return viol, runs
 
 
+TRAINED_LIST = ['dragon12', 'bob@gmail.com', 'alice@yahoo.com12', 'www.google.com', 'http://rockyou.com/1', 'monkey', '12', 'dragon', 'dragon',
+                'monkey7', 'Pass!', 'qwer1234', '1999love', '#1fan', '12', 'dragon12', 'carol@gmail.com', '12www.google.com']
+
+
+def trained_ruleset_case(pws=None):
+    """trainer -> PRINCE-LING: a ruleset trained from a list in which some passwords hold an e-mail address or a web site.  The words
+    are the terminals of the ruleset: every value of every terminal list the trainer wrote (e-mail providers and web hosts included)
+    comes out once, and every such list has its label in Prince/grammar.txt"""
+    from collections import Counter
+    pws = pws or TRAINED_LIST
+    tf = os.path.join(common.scratch_dir('c17t'), 'list.txt')
+    with open(tf, 'w', encoding='utf-8') as f:
+        f.write(''.join(p + '\n' for p in pws))
+    rd = os.path.join(common.scratch_dir('rules'), 'c17trained')
+    ok, log = common.train(tf, rd, coverage=0.6)
+    wit = {'trained_passwords': pws}
+    if not ok:
+        return [{'property': 'C17', 'kind': 'training-failed', 'log_tail': log[-200:], 'witness': wit}]
+    labels = [ln.split('\t')[0] for ln in open(os.path.join(rd, 'Prince', 'grammar.txt'), encoding='ascii').read().split('\n') if ln]
+    lists = {}
+    for folder, letter in (('Alpha', 'A'), ('Digits', 'D'), ('Other', 'O'), ('Keyboard', 'K')):
+        for fn in sorted(os.listdir(os.path.join(rd, folder))):
+            lists[letter + fn.split('.')[0]] = os.path.join(rd, folder, fn)
+    lists.update({'Y1': os.path.join(rd, 'Years', '1.txt'), 'X1': os.path.join(rd, 'Context', '1.txt'),
+                  'E': os.path.join(rd, 'Emails', 'email_providers.txt'), 'W': os.path.join(rd, 'Websites', 'website_hosts.txt')})
+    values = {lab: [ln.split('\t')[0] for ln in open(pth, encoding='utf-8').read().split('\n') if ln] for lab, pth in lists.items() if os.path.exists(pth)}
+    out = []
+    missing = sorted(lab for lab, vs in values.items() if vs and lab not in labels)
+    if missing:
+        out.append({'property': 'C17', 'kind': 'terminal-list-missing-from-prince-grammar', 'labels': missing, 'witness': wit})
+    common.install_ruleset(rd, 'c17trained')
+    o, e, rc = common.run_cli('prince_ling.py', ['-r', 'c17trained', '--all_lower'], stdin='devnull')
+    got = Counter(lines_of(o))
+    want = Counter(v for lab, vs in values.items() for v in vs)
+    if rc != 0 or got != want:
+        out.append({'property': 'C17', 'kind': 'trained-ruleset-words-differ-from-terminals', 'rc': rc, 'missing': sorted((want - got))[:6],
+                    'extra': sorted((got - want))[:6], 'witness': wit})
+    return out
+
+
 def run(ctx):
     rng = ctx.rng
     viol, samples = [], []
     dist = {'all_lower': {}, 'size': {}, 'tie_groups': 0}
     cases = nontrivial = runs = 0
+    viol += trained_ruleset_case()
+    cases += 1
+    runs += 1
+    dist['trained_rulesets'] = 1
     # trace validation of the queue over the Prince grid (same machinery as C01/C02)
     ops, exp, meta = [], [], []
     # cheap part: trace validation + each-once oracle on many Prince grids (ties between word and mask probabilities)
@@ -218,6 +262,9 @@ def replay(ctx, payload):
     w = payload.get('violation', {}).get('witness') or {}
     if not w:
         return []
+    if 'trained_passwords' in w:
+        common.use_impl()
+        return trained_ruleset_case(w['trained_passwords'])
     d = common.install_ruleset(w['spec'], 'replay17')
     lower = bool(w.get('all_lower'))
     pcfg = common.load_grammar(d, skip_case=lower, folder='Prince')
